@@ -98,7 +98,7 @@ CLAIMS = {
                  "BOUNDED: real distributions (uniform/triangle/normal), weighted midpoint with inexact ppf, sums to 1 incl. infinite ends and boundary-off renormalisation, the real UQ pipeline."),
     "C16": mixed("PROVED for every dimension with symbolic coordinates: calculate_R_value_analytically returns the product of the 1-D L2 products of the two hat functions (Gram entry), 0 for non-adjacent; "
                  "lemma: the closed forms are the integrals; hat_function_non_symmetric (standard basis) and hat_function (uniform grid) return the product of the 1-D hat values for every dimension; "
-                 "check_adjacency is true exactly when the indices differ by at most one in every dimension; the mass-lumped system matrix value of a uniform component grid (dims 1-3, any levels) is the Gram diagonal prod 2 h_k / 3. BOUNDED: matrix assembly (uniform / dimension-wise), SPD, mass lumping, right-hand side on all three size paths, "
+                 "check_adjacency is true exactly when the indices differ by at most one in every dimension; the mass-lumped system matrix value of a uniform component grid (dims 1-3, any levels) is the Gram diagonal prod 2 h_k / 3; build_R_matrix without mass lumping (dims 1-2, the grid abstracted to two arbitrary grid points): every entry is the Gram entry of the two hats, lambda added on the diagonal, symmetric. BOUNDED: matrix assembly (uniform / dimension-wise), SPD, mass lumping, right-hand side on all three size paths, "
                  "scalar vs vectorised hats, normalisation."),
     "C17": bounded("Relational over configurations (reuse on/off, both sides of the 200-point threshold): no single-call contract expresses the whole property. "
                    "PROVED kernel (d in {1,2}, symbolic coordinates): get_domain_overlap_width returns the cache key (ascending overlap widths, ascending node distances; zeros when not "
@@ -117,7 +117,8 @@ CLAIMS = {
                    "against independently evaluated per-class densities, out-of-range removal, summary consistency, history stability."),
     "C20": bounded("PROVED kernel (any number of component grids): all six coefficient-optimisation variants (error per grid, least squares on the validation set, Garcke's linear "
                    "system; standard and spatially adaptive) leave coefficients in the scheme that sum to one, whatever the validation errors / the lstsq solution are, provided "
-                   "the raw sum is not zero (assumption A-NORMALISABLE: the library divides by it unguarded) -- ghost Sum, loop invariants, induction lemma sum-scale. "
+                   "the raw sum is not zero (assumption A-NORMALISABLE: the library divides by it unguarded) -- ghost Sum, loop invariants, induction lemma sum-scale; "
+                   "build_C_matrix (dims 1-2, the grid abstracted to two arbitrary grid points): every entry is the gradient Gram entry of the two hats (sum over k of stiffness in k times mass in the other dimensions), symmetric. "
                    "BOUNDED (deciding for the rest): normal equations residual on every component grid, design matrix == basis values, C == gradient Gram matrix (own exact reference) incl. anisotropic level "
                    "vectors, PSD, every coefficient optimisation variant sums to one; standard and dimension-wise training, d<=3."),
 }
